@@ -252,6 +252,19 @@ class Unroller(ast.NodeTransformer):
                 if cname in self.classes:
                     fn = self.classes[cname][1].get(f.attr)
                     bound = True
+                elif f.attr.startswith("_") and not f.attr.startswith("__") and self.cls:
+                    # <other object>._helper(): a private helper defined by the enclosing class and by no other class of
+                    # the module is that helper, whatever the receiver is called; its rows are read on the receiver
+                    owners = [cn for cn, (_c, fs) in self.classes.items() if f.attr in fs]
+                    if owners == [self.cls[-1]]:
+                        h = self.classes[owners[0]][1][f.attr]
+                        sr = _single_return(h)
+                        if sr is not None and sr[1] == 1 and sr[2] == 1 and h.args.args:
+                            t = self.table(sr[0], depth + 1)
+                            if t and t[0] == "rows":
+                                me = h.args.args[0].arg
+                                return ("rows", [_Subst({me: ast.Name(id=owner, ctx=ast.Load())}).visit(copy.deepcopy(r)) for r in t[1]])
+                    return None
                 if f.attr in ("items", "keys", "values") and fn is None:
                     return self._dict_view(f, depth)
             elif isinstance(f, ast.Attribute) and f.attr in ("items", "keys", "values"):
@@ -425,6 +438,13 @@ class Unroller(ast.NodeTransformer):
                 v = ast.copy_location(ast.Tuple(elts=[e for e, _c in items], ctx=ast.Load()), v)
                 node.value = v
                 self.count += 1
+        if names and isinstance(v, ast.Call) and not v.args and not v.keywords:
+            # unpacking what a parameterless helper returns as a literal
+            tb = self.table(v)
+            if tb and tb[0] == "rows" and len(tb[1]) == len(names) and not any(isinstance(r, ast.Lambda) for r in tb[1]):
+                v = ast.copy_location(ast.Tuple(elts=[copy.deepcopy(r) for r in tb[1]], ctx=ast.Load()), v)
+                node.value = v
+                self.count += 1
         if names and len(set(names)) == len(names) and isinstance(v, (ast.Tuple, ast.List)) and len(v.elts) == len(names) and not any(isinstance(x, ast.Starred) for x in v.elts):
             # a, b = e1, e2 where neither expression reads a or b: two assignments
             read = {x.id for e in v.elts for x in ast.walk(e) if isinstance(x, ast.Name)}
@@ -452,6 +472,14 @@ class Unroller(ast.NodeTransformer):
 
     def visit_Call(self, node):
         self.generic_visit(node)
+        if isinstance(node.func, ast.Name) and node.func.id == "all" and len(node.args) == 1 and not node.keywords and isinstance(node.args[0], ast.Call):
+            # all(map(operator.eq, A, B)) over two tables of the same length: a_0 == b_0 and a_1 == b_1 ...
+            mp = node.args[0]
+            if isinstance(mp.func, ast.Name) and mp.func.id == "map" and len(mp.args) == 3 and not mp.keywords and ast.unparse(mp.args[0]) in ("operator.eq", "eq"):
+                ta, tb = self.table(mp.args[1]), self.table(mp.args[2])
+                if ta and tb and ta[0] == tb[0] == "rows" and len(ta[1]) == len(tb[1]) >= 2:
+                    self.count += 1
+                    return ast.copy_location(ast.BoolOp(op=ast.And(), values=[ast.copy_location(ast.Compare(left=copy.deepcopy(a), ops=[ast.Eq()], comparators=[copy.deepcopy(b)]), node) for a, b in zip(ta[1], tb[1])]), node)
         if isinstance(node.func, ast.Name) and node.func.id in ("all", "any") and len(node.args) == 1 and not node.keywords and isinstance(node.args[0], (ast.GeneratorExp, ast.ListComp, ast.List)):
             a = node.args[0]
             if isinstance(a, ast.List):
